@@ -185,6 +185,10 @@ STRUCTURED.append(('a variable defined through another placeholder, used twice i
                    '[Pair]\nGd-Gd : as.zbl ${zGd} ${zGd}\nO-O : sum(as.buck ${A1} ${rho_OO} 0.0, as.buck ${A2} ${rho_OO} 32.0)\nGd-O : as.buck ${A1} ${rho} ${zGd}\n',
                    '[Species]\nGd.atomic_number : 64\n\n' + _P + '[Pair]\nGd-Gd : as.zbl 64 64\nO-O : sum(as.buck 1000.0 0.3 0.0, as.buck 1000.0 0.3 32.0)\nGd-O : as.buck 1000.0 0.3 64\n', []))
 _E = '[Tabulation]\ntarget : setfl\nnr : 4\ndr : 0.5\nnrho : 4\ndrho : %s\n\n[EAM-Embed]\nAl : >=0 as.polynomial 0.1 -1.0 0.01\nCu : %s\n\n[EAM-Density]\nAl : >=0 as.exp_spline 1.1 -1.1 0.03 0 0 0 0.1\nCu : >=0 as.exp_spline 0.9 -1.0 0.02 0 0 0 0.05\n\n[Pair]\nCu-Al : >=0 as.morse 1.3 3.0 0.35\n'
+_S = '[Species]\nAl.lattice_type%sbcc\nAl.atomic_mass%s30.0\nCu.lattice_constant%s3.61\n\n'
+STRUCTURED.append(('every value of [Tabulation] / [Species] / [EAM-*] starts on the line after its key (no placeholders at all)',
+                   _S % ((' :\n    ',) * 3) + (_E % ('0.5', '>=0 as.polynomial 0.2 -1.3 0.02')).replace(' : ', ' :\n    '),
+                   _S % ((' : ',) * 3) + _E % ('0.5', '>=0 as.polynomial 0.2 -1.3 0.02'), []))
 STRUCTURED.append(('same-section references in [Tabulation] (drho : ${dr}) and [EAM-Embed] (Cu : ${Al})',
                    _E % ('${dr}', '${Al}'), _E % ('0.5', '>=0 as.polynomial 0.1 -1.0 0.01'), []))
 STRUCTURED.append(('same-section references with like-named variables present',
